@@ -34,6 +34,9 @@ type Step struct {
 	Steps    []Step `json:"steps,omitempty"`
 	Tag      string `json:"tag,omitempty"` // free label echoed in the result
 	Suite    bool   `json:"suite,omitempty"` // sub: the subtest function is declared in the non-test file suite.go
+	// FromExec (skip): the step only skips from this execution of the test on (1-based, -count=N runs every test N times):
+	// a resource that is gone after the first run, state that can be set up only once per process
+	FromExec int `json:"from_execution,omitempty"`
 }
 
 type Node struct {
@@ -95,11 +98,25 @@ type RecT struct {
 	logs   []string
 }
 
+var executions = map[string]int{}
+
 func Wrap(t *testing.T) *RecT {
 	mu.Lock()
 	result.Started = append(result.Started, t.Name())
+	executions[t.Name()]++
 	mu.Unlock()
 	return &RecT{T: t}
+}
+
+// DoSkipStep performs a skip step (see Step.FromExec).
+func DoSkipStep(rt *RecT, st Step) {
+	mu.Lock()
+	n := executions[rt.Name()]
+	mu.Unlock()
+	if st.FromExec > 0 && n < st.FromExec {
+		return
+	}
+	DoSkip(rt, st.Kind)
 }
 
 func (r *RecT) Helper()                  { r.T.Helper() }
